@@ -46,6 +46,10 @@ pub enum Builtin {
     EtMeta(&'static str),
     Identity,
     Noop,
+    /// returns exactly one nil
+    ReturnNil,
+    /// returns its arguments, or one nil when called without arguments
+    IdentityOrNil,
     Named(&'static str),
     /// iterator helper for ipairs
     IpairsIter,
